@@ -30,6 +30,12 @@ CHECKS = {
    text="Proof (part 1, rule text and rule list): every rule in the image of the parser prints to a string that parses back to the same rule (all rule forms, ticks over the whole uint64 range including the signed rendering), the image of the parser is characterised syntactically, suspended rules are absent from the active list, reactivation restores. Model tied to simbox by replaying random rule-list histories (add/del/suspend/reactivate, malformed text, out-of-range indices) and comparing every intermediate list and printed form; JSON save/load checked on the Go side. Part 2 (effect of rules during simulation) is not yet modelled: partial.",
    design_ref="DESIGN.md section 5, C15",
    note="Trusted: Coq kernel; harness/c15.go + lib/c15.py; Front/Simbox.v hand-written model."),
+ "C18": dict(
+   technique="Per-configuration validation: every emitted file set is parsed and linted by a Coq-evaluated checker (Vlog/Lint.v) for undeclared identifiers, undefined modules, port mismatches, assignment kinds and multiple drivers",
+   category="translation_validation",
+   text="Translation validation per configuration: random machines (opcode families, modes ha/vn/hy, register sizes, shared objects attached to processors, bonds) are rendered with Bondmachine.Write_verilog, every file except the test bench is parsed (Verilog-2001 front-end) and the design is linted by Vlog.Lint evaluated inside Coq. Twelve genuine defect classes of the unchanged tree are recorded as known findings with narrow keys (class, module kind, identifier); any other error is a violation. The soundness theorem of the linter against a declarative well-formedness predicate is not proved yet (only structural lemmas), hence the category.",
+   design_ref="DESIGN.md section 5, C18",
+   note="Trusted: lib/vparse.py, lib/vcoq.py (front-end), Vlog/Lint.v as the definition of the six error classes, Coq vm_compute. Implicit nets are accepted where Verilog-2001 allows them (port connections, continuous-assignment targets)."),
 }
 NOT_APPLICABLE = []
 
